@@ -93,9 +93,12 @@ fn run_once(st: &Settings, train: &[String], test: &[String], scratch: &std::pat
     let (cv, tv) = if warm {
         const WARM_RE: &str = r"[^ ;]+";
         const DEFAULT_RE: &str = r"\b\w\w+\b";
-        let c0 = CountVectorizer::params().tokenizer(Tokenizer::Regex(WARM_RE.to_string())).n_gram_range(1, 2);
+        // the earlier configuration used a regex for one half of the cases and a tokenizer FUNCTION for the other half
+        // (deterministic in the case): the last tokenizer setter must win in both directions
+        let warm_tok = || if (train.len() + st.nmax + st.method) % 2 == 0 { Tokenizer::Regex(WARM_RE.to_string()) } else { Tokenizer::Function(tok_semi) };
+        let c0 = CountVectorizer::params().tokenizer(warm_tok()).n_gram_range(1, 2);
         c0.fit(&xtr).map_err(|e| format!("warm-up count fit: {}", e))?;
-        let t0 = tfidf_with_method(st.method).tokenizer(Tokenizer::Regex(WARM_RE.to_string())).n_gram_range(1, 2);
+        let t0 = tfidf_with_method(st.method).tokenizer(warm_tok()).n_gram_range(1, 2);
         t0.fit(&xtr).map_err(|e| format!("warm-up tf-idf fit: {}", e))?;
         let (mut c1, mut t1) = (configure!(c0, st), configure!(t0, st));
         if let Tok::Default = &st.tok {
